@@ -125,6 +125,8 @@ def inspect_frame(frame: FrameType) -> FrameDetails:
     assert blockstack_offset - 16 > ctypes.sizeof(FrameObjectStart) - wordsize
     blockstack_raw = BlockStack.from_address(id(frame) + blockstack_offset - 16)
     f_lasti = ctypes.c_int.from_address(id(frame) + blockstack_offset - 16)
+    f_iblock = ctypes.c_int.from_address(id(frame) + blockstack_offset - 8)
+    f_state = ctypes.c_int.from_address(id(frame) + blockstack_offset - 4)
 
     # The internal f_lasti and b_handler went from counting bytes to
     # code units in 3.10
@@ -201,7 +203,14 @@ def inspect_frame(frame: FrameType) -> FrameDetails:
                 details.stack = []
                 for i in range(stack_len):
                     _verif_hook("inspect_frame:slot", frame, i)
+                    # (f_lasti alone won't do: a frame that is left by an
+                    # exception passing through a 'with' or 'finally' block
+                    # ends up with the f_lasti of the instruction that
+                    # raised. But its blocks are popped on the way out, and
+                    # its state changes when it finishes.)
                     assert f_lasti.value == snapshot.f_lasti
+                    assert f_iblock.value == snapshot.f_iblock
+                    assert f_state.value == snapshot.f_state
                     try:
                         # Read the PyObject* from memory and take a reference
                         # to it, in one atomic operation
@@ -213,6 +222,8 @@ def inspect_frame(frame: FrameType) -> FrameDetails:
                     details.stack.append(obj)
                 _verif_hook("inspect_frame:post_stack", frame)
                 assert f_lasti.value == snapshot.f_lasti
+                assert f_iblock.value == snapshot.f_iblock
+                assert f_state.value == snapshot.f_state
             else:
                 # Suspended: map the addresses on the stack back to actual
                 # objects with gc.get_referents(), which is the safest way.
@@ -226,7 +237,11 @@ def inspect_frame(frame: FrameType) -> FrameDetails:
                 details.stack = [object_from_id_map.get(value) for value in stack]
 
         except AssertionError:
-            if f_lasti.value == snapshot.f_lasti:
+            if (
+                f_lasti.value == snapshot.f_lasti
+                and f_iblock.value == snapshot.f_iblock
+                and f_state.value == snapshot.f_state
+            ):
                 raise
             # otherwise this was probably a concurrent modification, try again
             continue
